@@ -52,6 +52,8 @@ def classify(ev, events, pos):
         feats.append("string-operator-on-id")
     if re.search(r"\{[^}]*\b(any|all|none|single)\s*\(", low):
         feats.append("quantifier-in-inline-map")
+    if re.search(r"\b(?!id\b)[a-z]\w*\s*\(\s*(?:distinct\s+)?\(*\s*id\s*\(", low):
+        feats.append("id-as-function-argument")
     # a projection item that is a conjunction / disjunction (the translator splits it into an item and a filter)
     for m in re.finditer(r"\b(return|with)\b(.*?)(?=\b(?:optional\s+match|match|unwind|with|create|merge|set|detach\s+delete|delete|remove|return|order\s+by|where)\b|$)", low):
         if re.search(r"\b(and|or|xor)\b", m.group(2)) and not re.search(r"\bwhere\b", m.group(2)):
